@@ -201,6 +201,15 @@ def wrappedExtrudedHexes (quads : List (List Nat)) (c corner u : P3 K) (h dg rad
 def ovalExtrudedHexes (quads : List (List Nat)) (c1 c2 u : P3 K) (h k dg radius wd amount : K) : List (Hex K) :=
   extrudeOf quads (ovalPts c1 c2 u h k dg radius wd) c1 u amount
 
+/-- `RevolvedShape(sketch, angle, axis, origin)` on any mapped sketch with positions `pts`: the second sketch is
+    the first one turned about the axis (`ax` = unit axis, `(cs, sn)` = cosine / sine of the angle) -/
+def revolveOf (quads : List (List Nat)) (pts : List (P3 K)) (d : P3 K) (cs sn : K) (ax o : P3 K) : List (Hex K) :=
+  loftHexes quads pts (pts.map (rotAbout cs sn ax o)) d (rotAbout cs sn ax o d)
+
+/-- `RevolvedShape` of one of the four disk sketches -/
+def revolvedHexes (quads : List (List Nat)) (cl : DiskCls) (c rp u : P3 K) (h k dg cs sn : K) (ax o : P3 K) : List (Hex K) :=
+  revolveOf quads (diskPts cl c rp u h k dg) c cs sn ax o
+
 /-- `Cylinder` / `SemiCylinder(axis_point_1, axis_point_2, radius_point_1)`: `sketch_class(axis_point_1,
     radius_point_1, axis)`, second sketch = `Translation(axis)`; `wl` witnesses `norm(axis)` -/
 def cylinderHexes (quads : List (List Nat)) (cl : DiskCls) (p1 p2 rp : P3 K) (wl h k dg : K) : List (Hex K) :=
@@ -300,6 +309,14 @@ def handleGeo (quadsOf : String → Option (List (List Nat))) (op : String) (arg
       let r2 ← parseRat? r2; let wr ← parseRat? wr
       if wl ≤ 0 || wr ≤ 0 then none else
       some (showP3s ((frustumHexes quads p1 p2 rp wl h k dg r2 wr).flatMap Hex.toList))
+  | "c11.rev", [cls, c, rp, u, h, k, dg, ax, o, cs, sn] => do
+      let cl ← DiskCls.ofName? cls
+      let quads ← quadsOf cls
+      let c ← parseP3? c; let rp ← parseP3? rp; let u ← parseP3? u
+      let h ← parseRat? h; let k ← parseRat? k; let dg ← parseRat? dg
+      let ax ← parseP3? ax; let o ← parseP3? o; let cs ← parseRat? cs; let sn ← parseRat? sn
+      if !nearUnit u || !nearUnit ax then none else
+      some (showP3s ((revolvedHexes quads cl c rp u h k dg cs sn ax o).flatMap Hex.toList))
   | "c11.extrw", [c, corner, u, h, dg, radius, wn, amount] => do
       let quads ← quadsOf "WrappedDisk"
       let c ← parseP3? c; let corner ← parseP3? corner; let u ← parseP3? u
